@@ -256,7 +256,7 @@ var propSpecs = map[string]*propSpec{
 	},
 	"C11": {
 		id:      "C11",
-		streams: []stream{{"bigseg", 15000}, {"manykinds", 3000}, {"malformed", 3000}},
+		streams: []stream{{"bigseg", 15000}, {"manykinds", 3000}, {"malformed", 3000}, {"statuspairs", 504}},
 		proj: func(o *WObs) any {
 			return []any{o.Result.Reason.BSS, o.BSQueries, o.MemChecks, core(o)}
 		},
